@@ -285,6 +285,64 @@ fn slice_fault(a: &Args, t: &mut Trace) {
     }
 }
 
+/// kind 10: RawLRU histories with one injected panic each (and the same history without), every line compared
+/// with layer F of the model
+fn slice_flru(a: &Args, t: &mut Trace) {
+    types::DROP_IS_USER_CALL.store(true, std::sync::atomic::Ordering::Relaxed);
+    let targets: usize = a.corpus.as_ref().and_then(|s| s.parse().ok()).unwrap_or(3);
+    for i in 0..a.n {
+        let (mine, stream, hforce) = case_plan(a, i);
+        if !mine {
+            continue;
+        }
+        let mut r = rng_for(a.seed, stream + 9_000_000);
+        let cap = r.range(1, 4);
+        let hmode = hforce.unwrap_or(2 + r.below(3));
+        let len = r.range(a.len / 2 + 1, a.len) as usize;
+        let mut kg = gen::KeyGen::new(cap + 3);
+        let mut vg = gen::ValGen(1000);
+        let mk = move || Box::new(fault::FLruSubj::new(cap as usize, hmode, len + 8)) as Box<dyn Subject>;
+        let ops = match gen_history(&mk, len, &mut |snap| {
+            let fake: Ints = {
+                let res = hlru::resident(snap);
+                let mut v = vec![cap as i128, res.len() as i128];
+                for k in res {
+                    v.push(k as i128);
+                    v.push(0);
+                }
+                v
+            };
+            loop {
+                let op = gen::lru_op(&mut r, &mut kg, &mut vg, &fake, cap);
+                if !matches!(op[0], 24 | 25 | 26) {
+                    return op;
+                }
+            }
+        }) {
+            Some(o) => o,
+            None => continue,
+        };
+        let counts = match fault::dry_run(&mk, &ops) {
+            Some(c) => c,
+            None => continue,
+        };
+        let id0 = format!("flru-s{}-i{}", a.seed, i);
+        fault::run_flru_case(t, &format!("{}-n", id0), cap as usize, hmode, &ops, None);
+        let mut js: Vec<usize> = (0..ops.len()).filter(|j| counts[*j] > 0).collect();
+        while js.len() > targets {
+            let k = r.below(js.len() as u64) as usize;
+            js.remove(k);
+        }
+        let mut n = 0;
+        for j in js {
+            for call in 0..counts[j] {
+                fault::run_flru_case(t, &format!("{}-{}", id0, n), cap as usize, hmode, &ops, Some((j, call)));
+                n += 1;
+            }
+        }
+    }
+}
+
 /// RawLRU at the level of node addresses (kind 9): the operations the heap model covers
 fn slice_hlru(a: &Args, t: &mut Trace) {
     let caps: [u64; 8] = [1, 1, 2, 2, 3, 4, 5, 8];
@@ -593,6 +651,10 @@ pub fn mk_subject(kind: u32, cfg: &[i128], meta: &std::collections::HashMap<Stri
     }
 }
 
+fn m_of(meta: &std::collections::HashMap<String, u64>, k: &str) -> u64 {
+    meta.get(k).cloned().unwrap_or(0)
+}
+
 /// replay every case of a case file (same format as a trace; results in it are ignored)
 fn slice_replay(a: &Args, t: &mut Trace) {
     let path = a.corpus.clone().expect("--corpus <file or dir>");
@@ -669,6 +731,25 @@ fn slice_replay(a: &Args, t: &mut Trace) {
                         meta.insert(k.to_string(), v);
                     }
                 }
+            }
+            if c.kind == 10 {
+                types::DROP_IS_USER_CALL.store(true, std::sync::atomic::Ordering::Relaxed);
+                let mut ops: Vec<Ints> = Vec::new();
+                let mut flt: Option<(usize, u64)> = None;
+                for op in &c.ops {
+                    if op.first() == Some(&97) && op.len() > 10 {
+                        // 97 kind c0..c6 nidx idx.. op..: the call index is the sum of the counts
+                        let nidx = op[9] as usize;
+                        let call: i128 = op[2..9].iter().sum();
+                        flt = Some((ops.len(), call as u64));
+                        ops.push(op[10 + nidx..].to_vec());
+                    } else {
+                        ops.push(op.clone());
+                    }
+                }
+                fault::run_flru_case(t, &c.id, c.cfg[0] as usize, m_of(&meta, "hasher"), &ops, flt);
+                types::DROP_IS_USER_CALL.store(false, std::sync::atomic::Ordering::Relaxed);
+                continue;
             }
             if c.kind >= 100 {
                 // a fault case: operations written `97 <call index> <op...>` carry an injection
@@ -805,6 +886,7 @@ fn main() {
         "lru_bfs" => slice_lru_bfs(&a, &mut t),
         "hlru" => slice_hlru(&a, &mut t),
         "fault" => slice_fault(&a, &mut t),
+        "flru" => slice_flru(&a, &mut t),
         s => {
             eprintln!("unknown slice {}", s);
             std::process::exit(2);
